@@ -75,11 +75,11 @@ pub fn spec(id: &str) -> Option<PropSpec> {
         "C09" => PropSpec {
             id: "C09",
             batches: vec![b("sat", 200_000, 6_000_000, false)],
-            rule: "one case = one seeded run: a random CNF (<= 6 variables, <= 8 clauses of <= 4 literals incl. empty, unit, duplicate and tautological clauses) and a history of up to 50 (thorough: 120) decide/pop calls by 1-3 logical callers on one real SATSolver, including refused (UNSAT) decisions followed by more work. Distinct = distinct event-log hash. Non-trivial = at least one accepted decision on a non-empty CNF.",
+            rule: "one case = one seeded run: a random CNF (usually <= 6 variables and <= 8 clauses of <= 4 literals, one run in four up to 10 variables, 14 clauses and 8 literals per clause; incl. empty, unit, duplicate and tautological clauses) and a history of up to 50 (thorough: 120) decide/pop calls by 1-3 logical callers on one real SATSolver, including refused (UNSAT) decisions followed by more work. Distinct = distinct event-log hash. Non-trivial = at least one accepted decision on a non-empty CNF.",
             states_measure: "distinct solver hash values (= residual formulas) visited",
             probe_prefixes: &["Up", "SatHash"],
             assumptions: &[
-                "CNFs over at most 6 variables (brute-force model oracle)",
+                "CNFs over at most 10 variables (brute-force model oracle over <= 1024 assignments)",
                 "the hash clause is only asserted when the product of all literal primes fits in 128 bits (the implementation's arithmetic wraps beyond that)",
                 "no fault kinds exist for this component (no cache, no allocator dependence): the explored space is the schedule of decide/pop calls",
                 "seeded sampling, not exhaustive",
@@ -90,11 +90,11 @@ pub fn spec(id: &str) -> Option<PropSpec> {
         "C15" => PropSpec {
             id: "C15",
             batches: vec![b("cnf", 150_000, 6_000_000, false)],
-            rule: "one case = one seeded run: a random clause list (0-8 clauses of 0-4 literals over <= 6 variables, incl. the empty formula, empty/unit/duplicate/complementary literals) and a history of up to 54 (thorough: 124) calls by 1-3 logical callers: push/decide/pop/hash on a CnfHasher with the caller's partial model kept in step (hash also with extra assignments the hasher was not told about), set/unset on a PartialModel, insert/remove/union on VarSets, chained Cnf::condition; plus, per run, Cnf::new/eval/wmc on all assignments. Distinct = distinct event-log hash. Non-trivial = non-empty formula and at least two hash calls.",
+            rule: "one case = one seeded run: a random clause list (usually 0-8 clauses of 0-4 literals over <= 6 variables, one run in four up to 14 clauses of up to 8 literals over 10 variables; incl. the empty formula, empty/unit/duplicate/complementary literals) and a history of up to 54 (thorough: 124) calls by 1-3 logical callers: push/decide/pop/hash on a CnfHasher with the caller's partial model kept in step (hash also with extra assignments the hasher was not told about), set/unset on a PartialModel, insert/remove/union on VarSets, chained Cnf::condition; plus, per run, Cnf::new/eval/wmc on all assignments. Distinct = distinct event-log hash. Non-trivial = non-empty formula and at least two hash calls.",
             states_measure: "distinct HashedCNF values produced",
             probe_prefixes: &["__none"],
             assumptions: &[
-                "at most 6 variables (explicit assignment sets)",
+                "at most 10 variables (explicit assignment sets)",
                 "residual formulas are compared with clause identity (which clauses are unsatisfied, and their unassigned literals), which is what the hasher's per-occurrence primes encode",
                 "the 'only then' direction is asserted only while the prime product fits in 128 bits",
                 "Cnf::new/eval/is_sat_partial/condition/wmc are input-only clauses: for them this is plain seeded generation, the simulator adds nothing",
